@@ -100,6 +100,7 @@ func checkC02(p *Program, r *Report) {
 		"R3 every operation a script can block on (reflect.Select, Recv, Send, native select/receive/send) is a reflect.Select whose case 0 receives from ctx.Done() of the current record, and chosen == 0 stores ErrInterrupt and leaves without evaluating. " +
 		"R4 context threading: records take their context from a context parameter; every context handed to a script function or to reflect.ValueOf comes from the current record's ctx cell, the function's own context parameter or the incoming argument list — never from a captured record; context.Background/TODO only in the convenience wrappers. " +
 		"R5 ErrInterrupt is never wrapped into an ordinary error and never overwritten outside the recover handler and the deferred-call runner (whose precedence rule is C09.R3). " +
+		"R8 in a loop that runs the elements of a statement list one after the other, every evaluation of an element (or of a part of it) is preceded, in the same iteration, by a context poll: the statements that follow a cancellation do not run. " +
 		"R7 no evaluation of script code starts at a point where the error cell can hold ErrInterrupt (the script does not carry on after the cancellation).")
 	r.Assume("the length of the 'short bounded time', time inside one host Go call and fairness of reflect.Select are not decided")
 	m, err := buildVMModel(p)
@@ -186,7 +187,7 @@ func checkC02(p *Program, r *Report) {
 	}
 
 	// R2: cycles
-	nLoops := 0
+	nLoops, nSeq, nSeqEv := 0, 0, 0
 	for _, fn := range m.funcsOnRecord() {
 		base := m.baseOf(fn)
 		fname := funcName(fn)
@@ -283,8 +284,82 @@ func checkC02(p *Program, r *Report) {
 			}
 			r.Check(!cyc, "C02.R2", inst+"|polls", site, "every cycle passes a context poll or the polling statement dispatcher", "this loop can go round without ever looking at the context: a cancelled script keeps running")
 		}
+		// R8: a loop that runs the elements of a list one after the other *as statements* is the sequence of a block. No element
+		// (and no part of one, when a statement kind is handled in place) is evaluated in an iteration that has not looked at the
+		// context first: "no construct can carry on executing further statements" - the list being finite does not help, every
+		// statement may be a host call.
+		for _, l := range loopsOf(fn) {
+			elem := ""
+			for _, e := range va.events[fn] {
+				if e.role != "stmt" || !l.Body[e.call.Block()] {
+					continue
+				}
+				for _, o := range e.operands {
+					if !strings.HasPrefix(o, "node.") || !strings.HasSuffix(o, "]") || strings.Contains(o, "].") {
+						continue
+					}
+					name := o[strings.Index(o, "[")+1 : len(o)-1]
+					if v, ok := va.idx(fn)[name]; ok {
+						var phi *ssa.Phi
+						switch x := v.(type) {
+						case *ssa.Phi:
+							phi = x
+						case *ssa.BinOp:
+							phi, _ = x.X.(*ssa.Phi)
+						}
+						if phi != nil && phi.Block() == l.Header {
+							elem = o
+						}
+					}
+				}
+			}
+			if elem == "" {
+				continue
+			}
+			nSeq++
+			for _, e := range va.events[fn] {
+				if !l.Body[e.call.Block()] {
+					continue
+				}
+				of := false
+				for _, o := range e.operands {
+					if o == elem || strings.HasPrefix(o, elem+".") {
+						of = true
+					}
+				}
+				if !of {
+					continue
+				}
+				nSeqEv++
+				blk := e.call.Block()
+				unpolled := false
+				if !polls[blk] && !polls[l.Header] {
+					for _, s := range l.Header.Succs {
+						if !l.Body[s] {
+							continue
+						}
+						if s == blk {
+							unpolled = true
+							continue
+						}
+						if polls[s] {
+							continue
+						}
+						reach := reachable(s, func(b *ssa.BasicBlock) bool { return polls[b] || !l.Body[b] || b == l.Header })
+						if reach[blk] {
+							unpolled = true
+						}
+					}
+				}
+				r.Check(!unpolled, "C02.R8", fmt.Sprintf("%s|%s %s evaluated after a poll", fname, e.role, normIdx(strings.Join(e.operands, "|"))), p.Pos(e.call.Pos()),
+					"every path of the iteration to this evaluation passes a context poll or the polling statement dispatcher",
+					"a statement of a block is evaluated in an iteration that never looked at the context: after a cancellation the following statements of the block still run")
+			}
+		}
 	}
 	r.Floor("C02.R2", nLoops, 10)
+	r.Floor("C02.R8", nSeq, 1)
+	r.Note("C02.R8 evaluations inside statement sequences", nSeqEv)
 
 	// R3: blocking operations
 	nBlock := 0
